@@ -601,6 +601,9 @@ async def _timer(
 
         # Reset success/failure retry counters & timers if it has succeeded. Keep it if failed.
         # Every next invocation of a successful handler starts the retries from scratch (from zero).
+        # A permanently failed handler is never invoked again: the timer stops forever.
+        if state.done and state[handler.id].failure:
+            break
         if state.done:
             state = progression.State.from_scratch().with_handlers([handler])
 
